@@ -7,6 +7,7 @@ import Rtp.Proofs.AV1PayInv
 import Rtp.Proofs.Obu
 namespace Rtp.Model.AV1
 open Rtp Rtp.Model Rtp.Spec.Av1Rtp
+open Rtp.Model.ObuLemmas
 
 def layerIds (e : ExtHdr) : Nat × Nat := (e.temporalID.toNat, e.spatialID.toNat)
 
